@@ -127,8 +127,8 @@ def Faults.forWrite (f : Faults) : Op → Bool × Faults
     *prepared copy* (version bumped, times set — `out`), Destroy deletes the pointer's id. If Put and
     Destroy do not address the same bucket path and key (regenerated fact) a Destroy removes nothing. -/
 def dWrite (cfg : Cfg) (D : Store) : Op → Out → Store
-  | .create r _, .wrote r' => D.put (r.key cfg) r'
-  | .update r _ _, .wrote r' => D.put (r.key cfg) r'
+  | .create r _, .wrote r' => D.put (r.key cfg) (if Gen.Store.preparedBeforeStore then r' else r)
+  | .update r _ _, .wrote r' => D.put (r.key cfg) (if Gen.Store.preparedBeforeStore then r' else r)
   | .destroy ns typ id _, .ok => if Gen.Persist.boltSameKey then D.del (cfg.key ns typ id) else D
   | _, _ => D
 
